@@ -111,6 +111,49 @@ ARound(x) ==
 ARemTT(x, y) == LET q == ATrunc(ADivTT(x, y)) IN ASubTT(x, AMulTT(q, y))
 ARemTF(x, f) == LET q == ATrunc(ADivTF(x, f)) IN ASubTT(x, AMulTF(q, f))
 ARemFT(f, y) == LET q == ATrunc(ADivFT(f, y)) IN ASubFT(f, AMulTT(q, y))
+ARemEuclid(x, y) == LET r == ARemTT(x, y) IN
+                    IF FLt(r.hi, Zero(FALSE)) \/ (FEq(r.hi, Zero(FALSE)) /\ FLt(r.lo, Zero(FALSE)))
+                    THEN AAddTT(r, IF FGt(y.hi, Zero(FALSE)) \/ (IsZeroNum(y.hi) /\ ~y.hi.neg /\ ~y.lo.neg) THEN y ELSE ANeg(y))
+                    ELSE r
+
+\* TwoFloat compared with the f64 zero (PartialOrd<f64>: hi first, then lo against 0.0)
+LtZero(x) == FLt(x.hi, Zero(FALSE)) \/ (FEq(x.hi, Zero(FALSE)) /\ FLt(x.lo, Zero(FALSE)))
+GtZero(x) == FGt(x.hi, Zero(FALSE)) \/ (FEq(x.hi, Zero(FALSE)) /\ FGt(x.lo, Zero(FALSE)))
+\* arithmetic.rs:336-374  div_euclid, rem_euclid
+ADivEuclid(x, y) ==
+  LET q == ATrunc(ADivTT(x, y)) IN
+  IF LtZero(ASubTT(x, AMulTT(q, y)))
+  THEN (IF GtZero(y) THEN ASubTF(q, One(FALSE)) ELSE AAddTF(q, One(FALSE)))
+  ELSE q
+
+\* ---- src/functions/power.rs:16-26  sqrt (Karp-Markstein with one double-word correction) ----
+ASqrt(x) ==
+  IF FLt(x.hi, Zero(FALSE)) \/ (IsZeroNum(x.hi) /\ FLt(x.lo, Zero(FALSE))) THEN TF(NaN, NaN)
+  ELSE IF IsZeroNum(x.hi) /\ IsZeroNum(x.lo) THEN TF(Zero(FALSE), Zero(FALSE))
+  ELSE LET rx == FDiv(One(FALSE), FSqrt(x.hi))
+           y == FMul(x.hi, rx)
+           corr == FMul(ASubTT(x, ANewMul(y, y)).hi, FMul(rx, HalfW))
+       IN ANewAdd(y, corr)
+AHypot(x, y) == ASqrt(AAddTT(AMulTT(x, x), AMulTT(y, y)))
+
+\* ---- src/base.rs:266-295  powi (n given as sign + BigNat magnitude) ---------------------------
+APowiLoop(x, nmag) ==
+  FoldLeft(LAMBDA acc, i : [res |-> IF TestBit(nmag, i) THEN AMulAssignTT(acc.res, acc.val) ELSE acc.res,
+                            val |-> AMulAssignTT(acc.val, acc.val)],
+           [res |-> FromW(One(FALSE)), val |-> x], [j \in 1..BitLen(nmag) |-> j - 1]).res
+\* ---- src/base.rs:177-207 min / max; src/functions/sign.rs signum, copysign (need validity) ----
+AIsValid(x) == x.hi.k = "f" /\ x.lo.k = "f" /\ NoOverlapDef(x.hi, x.lo)
+LexLe(a, b) == LET c == FCmp(a.hi, b.hi) IN IF c = 0 THEN FCmp(a.lo, b.lo) \in {-1, 0} ELSE c = -1
+AMin(a, b) == IF ~AIsValid(a) THEN b ELSE IF ~AIsValid(b) \/ LexLe(a, b) THEN a ELSE b
+AMax(a, b) == IF ~AIsValid(a) THEN b ELSE IF ~AIsValid(b) \/ LexLe(b, a) THEN a ELSE b
+ASignum(x) == IF AIsValid(x) THEN (IF ~x.hi.neg THEN FromW(One(FALSE)) ELSE FromW(One(TRUE))) ELSE TF(NaN, NaN)
+ACopySign(x, s) == IF x.hi.neg = s.hi.neg THEN x ELSE ANeg(x)
+
+\* ---- src/base.rs:7-15, 220-236  angle conversions (binary64 constants) ------------------------
+DegPerRad == TF([k |-> "f", neg |-> FALSE, mag |-> <<16888,13511,6000,229>>, e |-> -47],
+                [k |-> "f", neg |-> TRUE, mag |-> <<1529,2760,7853,143>>, e |-> -101])
+RadPerDeg == TF([k |-> "f", neg |-> FALSE, mag |-> <<7481,17573,32026,142>>, e |-> -58],
+                [k |-> "f", neg |-> FALSE, mag |-> <<21137,32155,1890,174>>, e |-> -114])
 
 \* ---- src/base.rs:35-60  no_overlap, by exponent-field arithmetic ---------------------
 BiasedExp(a) == (a.e + P - 1) - EMIN + 1
